@@ -1,10 +1,97 @@
+//! DMN model operations: parse -> ModelEvaluator::new -> evaluate_invocable (C03, C04, C11, C12, C13).
+
+use crate::vj;
+use dmntk_feel::context::FeelContext;
+use dmntk_model::model::NamedElement;
 use serde_json::{json, Value as J};
-pub fn op_model(_case: &J) -> J {
-  json!({"harness_error": "not implemented"})
+
+fn take_panic() -> J {
+  crate::LAST_PANIC.lock().ok().and_then(|mut g| g.take()).unwrap_or(json!({"msg": "<unknown>"}))
 }
-pub fn op_dtext(_case: &J) -> J {
-  json!({"harness_error": "not implemented"})
+
+/// {op:"model", xml, calls:[[invocable, ctx-entries],...], all:bool, inputs:[ctx-entries,...]}
+/// -> {"parse_err"} | {"build_err"} | {"invocables":[..], "rs":[{"name","input":k,"v"} | {"panic"}]}
+/// With `all`, every invocable found in the definitions is called with every context of `inputs`.
+pub fn op_model(case: &J) -> J {
+  let xml = case.get("xml").and_then(|v| v.as_str()).unwrap_or("");
+  let definitions = match std::panic::catch_unwind(|| dmntk_model::parse(xml)) {
+    Ok(Ok(d)) => d,
+    Ok(Err(e)) => return json!({"parse_err": e.to_string()}),
+    Err(_) => return json!({"panic": take_panic(), "stage": "parse"}),
+  };
+  let evaluator = match std::panic::catch_unwind(std::panic::AssertUnwindSafe(|| dmntk_model_evaluator::ModelEvaluator::new(&definitions))) {
+    Ok(Ok(e)) => e,
+    Ok(Err(e)) => return json!({"build_err": e.to_string()}),
+    Err(_) => return json!({"panic": take_panic(), "stage": "build"}),
+  };
+  let mut invocables: Vec<String> = vec![];
+  for d in definitions.decisions() {
+    invocables.push(d.name().to_string());
+  }
+  for b in definitions.business_knowledge_models() {
+    invocables.push(b.name().to_string());
+  }
+  for s in definitions.decision_services() {
+    invocables.push(s.name().to_string());
+  }
+  let empty = vec![];
+  let mut calls: Vec<(String, usize, FeelContext)> = vec![];
+  let mut input_ctxs: Vec<FeelContext> = vec![];
+  for inp in case.get("inputs").and_then(|v| v.as_array()).unwrap_or(&empty) {
+    match inp.as_array().map(|a| vj::to_context(a)) {
+      Some(Ok(c)) => input_ctxs.push(c),
+      Some(Err(e)) => return json!({ "harness_error": e }),
+      None => return json!({"harness_error": "bad inputs entry"}),
+    }
+  }
+  if case.get("all").and_then(|v| v.as_bool()).unwrap_or(false) {
+    for name in &invocables {
+      for (k, c) in input_ctxs.iter().enumerate() {
+        calls.push((name.clone(), k, c.clone()));
+      }
+    }
+  }
+  for (k, call) in case.get("calls").and_then(|v| v.as_array()).unwrap_or(&empty).iter().enumerate() {
+    let name = call.get(0).and_then(|v| v.as_str()).unwrap_or("").to_string();
+    let ctx = match call.get(1) {
+      Some(J::Array(a)) => match vj::to_context(a) {
+        Ok(c) => c,
+        Err(e) => return json!({ "harness_error": e }),
+      },
+      Some(J::Number(n)) => match input_ctxs.get(n.as_u64().unwrap_or(0) as usize) {
+        Some(c) => c.clone(),
+        None => return json!({"harness_error": "bad input index"}),
+      },
+      _ => FeelContext::default(),
+    };
+    calls.push((name, k, ctx));
+  }
+  let mut rs = vec![];
+  for (name, k, ctx) in &calls {
+    let before = ctx.to_string();
+    let r = std::panic::catch_unwind(std::panic::AssertUnwindSafe(|| evaluator.evaluate_invocable(name, ctx)));
+    match r {
+      Ok(v) => {
+        let mut rec = json!({"name": name, "k": k, "v": vj::from_value(&v)});
+        if let Some(m) = vj::null_msg(&v) {
+          rec["nm"] = json!(m);
+        }
+        let after = ctx.to_string();
+        if after != before {
+          rec["input_changed"] = json!([before, after]);
+        }
+        rs.push(rec);
+      }
+      Err(_) => rs.push(json!({"name": name, "k": k, "panic": take_panic()})),
+    }
+  }
+  #[cfg(dmntk_verif)]
+  let poisoned = evaluator.verif_poisoned().iter().any(|b| *b);
+  #[cfg(not(dmntk_verif))]
+  let poisoned = false;
+  json!({"invocables": invocables, "rs": rs, "poisoned": poisoned})
 }
-pub fn op_modelhist(_case: &J) -> J {
-  json!({"harness_error": "not implemented"})
+
+pub fn op_modelhist(case: &J) -> J {
+  op_model(case)
 }
